@@ -199,6 +199,12 @@ func cliSelect(c *fw.Ctx) {
 			}
 			sels = append(sels, s)
 		}
+		if rr.Intn(5) == 0 {
+			// a selector that accepts the source feature too (which is kept
+			// whatever the selection, also under -v).
+			sels = append(sels, sel{key: "source", str: "source"})
+			c.Bucket("cli:select selector that accepts the source feature")
+		}
 		if s0 := sels[0]; s0.re != nil && rr.Intn(3) == 0 {
 			// a second selector whose text starts with the text of the first one
 			// and accepts more: the selection is the union of both.
@@ -1022,10 +1028,19 @@ func cliFormatPlumbing(c *fw.Ctx, env *cli.Env) {
 		rr := rand.New(rand.NewSource(seed))
 		cmd := cmds[it%len(cmds)]
 		var stdin bytes.Buffer
-		var single [][]byte
+		var single, resid [][]byte
 		for i, k := 0, 1+rr.Intn(3); i < k; i++ {
 			gb, _ := cliRecord(rr, []int{20, 69, 70, 71, 140, 150}[rr.Intn(6)], true)
 			gb.Fields.Version = fmt.Sprintf("PLB%d.1", i)
+			if rr.Intn(5) == 0 {
+				// a spacer: letters that are their own complement only.
+				sp := make([]byte, gts.Len(gb))
+				for j := range sp {
+					sp[j] = "nnnnwsnNSW"[rr.Intn(10)]
+				}
+				gb.Origin = seqio.NewOrigin(sp)
+				c.Bucket("cli:plumbing record of self-complementary letters")
+			}
 			if i > 0 && rr.Intn(2) == 0 {
 				// a later record in which the usual selectors find nothing.
 				gb.Table = nil
@@ -1037,6 +1052,7 @@ func cliFormatPlumbing(c *fw.Ctx, env *cli.Env) {
 			}
 			stdin.WriteString(gb.String())
 			single = append(single, []byte(gb.String()))
+			resid = append(resid, append([]byte(nil), gb.Bytes()...))
 		}
 		enc := fmt.Sprintf("cli: gts %s with -F / -o variants, seed=%d", strings.Join(cmd, " "), seed)
 		c.Begin(enc)
@@ -1079,6 +1095,20 @@ func cliFormatPlumbing(c *fw.Ctx, env *cli.Env) {
 			if err != nil || bad != "" || len(got) != len(single) {
 				c.Violate("cli:plumbing:record-count:"+cmd[0], enc, fmt.Sprintf("%d records", len(single)), fmt.Sprintf("%d records err=%v %s", len(got), err, bad))
 				continue
+			}
+			// the commands that annotate or filter leave the residues alone.
+			if cmd[0] == "define" || cmd[0] == "search" || cmd[0] == "select" {
+				same := true
+				for i := range got {
+					if !bytes.Equal(got[i].data, resid[i]) {
+						c.Violate("cli:plumbing:residues-changed:"+cmd[0], enc, string(clipB(resid[i], 200)), string(clipB(got[i].data, 200)))
+						same = false
+						break
+					}
+				}
+				if !same {
+					continue
+				}
 			}
 		}
 		if len(text) > 0 {
